@@ -44,7 +44,41 @@ func starCase(leaves, long int, hubAtTrunk bool, rep int) C12Case {
 	return c
 }
 
-const starsRule = "enumerated stars: a hub that dials 3 or 4 leaves at once, one leaf holding the dominating branch (6-block trunk + 8 or 120 blocks, i.e. one or two block requests), the others short forks off the trunk tip, hub at genesis or at the trunk tip, two repetitions each (header+outline / outline-only announcements); same oracle as TestC12 (audits, no bans among honest nodes, convergence when quiescent, stall window). While the hub downloads the dominating branch its other unsynced peers are workers that cannot serve the requests, so failed requests must find their way to the peer that can."
+// deepForkCase: two (or three) nodes on forks that part ways `depth` blocks
+// below their tips, every node with a small per-subnet RPC budget. The lighter
+// node's SendHeaders walk through its history meets `depth` entries the heavier
+// node does not have on its best chain - that many handlers end with an error
+// before the common ancestor is found.
+func deepForkCase(depth, budget int, lighterDials bool, third bool) C12Case {
+	const trunk = 6
+	tc := kit.TreeCase{Net: kit.NetSpec{Maturity: 1, Allow: 2, ReqOff: 2, CutOff: 2}}
+	for i := 0; i < trunk; i++ {
+		tc.Blocks = append(tc.Blocks, kit.BlockSpec{Dt: 1, Miner: i % 4, OnBad: true})
+	}
+	run := func(n, miner, dt int) []kit.BlockSpec {
+		var out []kit.BlockSpec
+		for i := 0; i < n; i++ {
+			out = append(out, kit.BlockSpec{Dt: dt, Miner: miner})
+		}
+		return out
+	}
+	light := appendRun(&tc, trunk-1, run(depth, 1, 2))
+	heavy := appendRun(&tc, trunk-1, run(depth+8, 2, 1))
+	c := C12Case{Tree: tc, Outline: true}
+	c.Nodes = []C12Node{{Tip: 2*light + 1, SubnetLimit: budget}, {Tip: 2*heavy + 1, SubnetLimit: budget}}
+	if lighterDials {
+		c.Edges = []C12Edge{{From: 0, To: 1}}
+	} else {
+		c.Edges = []C12Edge{{From: 1, To: 0}}
+	}
+	if third {
+		c.Nodes = append(c.Nodes, C12Node{Tip: -1, SubnetLimit: budget})
+		c.Edges = append(c.Edges, C12Edge{From: 2, To: 0, DelayMS: 20})
+	}
+	return c
+}
+
+const starsRule = "enumerated stars: a hub that dials 3 or 4 leaves at once, one leaf holding the dominating branch (6-block trunk + 8 or 120 blocks, i.e. one or two block requests), the others short forks off the trunk tip, hub at genesis or at the trunk tip, two repetitions each (header+outline / outline-only announcements); same oracle as TestC12 (audits, no bans among honest nodes, convergence when quiescent, stall window). While the hub downloads the dominating branch its other unsynced peers are workers that cannot serve the requests, so failed requests must find their way to the peer that can. Plus 8 deep-fork cases: two or three nodes on forks that part 5 or 12 blocks below their tips, every node with WithMaxInflightRPCsPerSubnet(3 or 6), either side dialling: the lighter node's history walk makes that many SendHeaders handlers end with an error before the common ancestor is found - the budget must come back whatever way a handler ends."
 
 // TestC12Stars runs the enumerated star topologies (round robin over shards).
 func TestC12Stars(t *testing.T) {
@@ -77,6 +111,25 @@ func TestC12Stars(t *testing.T) {
 					}
 					d.Case(c, cs, err)
 				}
+			}
+		}
+	}
+	// deep forks under small per-subnet RPC budgets
+	for _, depth := range []int{5, 12} {
+		for _, budget := range []int{3, 6} {
+			for _, lighterDials := range []bool{true, false} {
+				i++
+				if (i-1)%shards != shard {
+					continue
+				}
+				c := deepForkCase(depth, budget, lighterDials, depth == 12)
+				cs := &kit.CaseStats{}
+				err := c12Prop.SafeRun(c, cs)
+				cs.Classf("deep-fork:depth=%d,subnet-budget=%d", depth, budget)
+				if err != nil {
+					err = fmt.Errorf("deep fork (depth %d, per-subnet RPC budget %d, lighter node dials=%v): %w", depth, budget, lighterDials, err)
+				}
+				d.Case(c, cs, err)
 			}
 		}
 	}
